@@ -7,6 +7,8 @@ package backoff
 //vsym:model math/rand.NewSource m17NewSource
 //vsym:model math/rand.New m17RandNew
 //vsym:model (*math/rand.Rand).Float64 m17Float64
+//vsym:model math/rand.Float64 m17TopFloat64
+//vsym:model math/rand/v2.Float64 m17TopFloat64
 //vsym:replay same-harness
 //vsym:expect-cover C17.backoff.attempt0 C17.backoff.capped C17.backoff.uncapped C17.backoff.pow-inf
 //vsym:bound H17_backoff: attempt any uint; base and max delay any integers with 0 <= base <= max <= 2^61 ns; multiplier any finite real >= 1; jitter any real in [0,1]; the random draw any real in [0,1); math.Pow returns any finite value >= 1 or +Inf
@@ -46,6 +48,9 @@ func m17Min(x, y float64) float64 {
 
 func m17NewSource(seed int64) rand.Source { return nil }
 func m17RandNew(src rand.Source) *rand.Rand { return new(rand.Rand) }
+// the package-level generators draw from the same distribution
+func m17TopFloat64() float64 { return m17Float64(nil) }
+
 func m17Float64(r *rand.Rand) float64 {
 	f := vNondetF64("rand")
 	vAssume(vAnd(vRLe(0, f), vNot(vRLe(1, f))))
